@@ -43,6 +43,10 @@ func WriteMessage(msg proto.Message, w io.Writer) error {
 	return nil
 }
 
+// MaxMessageSize is the largest message ReadMessage accepts.
+// A protocol buffer message cannot be larger than 2GiB.
+const MaxMessageSize = 1<<31 - 1
+
 // Read a message from io.ByteReader by first reading a varint size,
 // and then reading and decoding the message object.
 // If buf is not big enough a new buffer will be allocated to replace buf.
@@ -50,6 +54,9 @@ func ReadMessage(buf *[]byte, r ByteReadReader, msg proto.Message) error {
 	size, err := binary.ReadUvarint(r)
 	if err != nil {
 		return err
+	}
+	if size > MaxMessageSize {
+		return fmt.Errorf("message size %d exceeds the maximum of %d bytes", size, MaxMessageSize)
 	}
 	if cap(*buf) < int(size) {
 		*buf = make([]byte, size)
